@@ -165,9 +165,14 @@ def rule_pair(ctx):
     loops = [n for n in own_nodes(inv_call) if isinstance(n, ast.For)]
     lok = any(_order_view(l.iter, {'self.assembler.outputs'})[0] for l in loops)
     rets = [n for n in own_nodes(inv_call) if isinstance(n, ast.Return)]
+    resname = norm_src(rets[-1].value) if rets and rets[-1].value is not None \
+        else None
     appends = any(isinstance(n, ast.Call) and call_name(n) == 'append' and
-                  norm_src(n.func.value) == 'res' for n in own_nodes(inv_call))
-    if ok and lok and appends and rets and norm_src(rets[-1].value) == 'res':
+                  norm_src(n.func.value) == resname
+                  for l in loops if _order_view(
+                      l.iter, {'self.assembler.outputs'})[0]
+                  for n in ast.walk(l))
+    if ok and lok and appends and rets:
         rr.ok('the inverse assembler is registered with outputs '
               '`self.outputs` and emits one result per '
               '`assembler.outputs.values()` in that order', '%s:%d' % (
@@ -181,17 +186,24 @@ def rule_pair(ctx):
     # (d) compiled formula: ordered mapping passed unchanged
     comp = p.func('formulas/builder.py', 'AstBuilder.compile')
     rr.instances += 1
-    i_ctor = [norm_src(n.value) for n in own_nodes(comp) if isinstance(n, ast.Assign)
-              and any(isinstance(t, ast.Name) and t.id == 'i' for t in n.targets)]
-    fills = [n for n in own_nodes(comp) if isinstance(n, ast.For) and any(
-        isinstance(s, ast.Assign) and any(
-            isinstance(t, ast.Subscript) and norm_src(t.value) == 'i'
-            for t in s.targets) for s in ast.walk(n))]
     cc = [c for c in own_nodes(comp) if isinstance(c, ast.Call) and
           norm_src(c.func) == 'self.compile_class']
-    if not cc or not fills or not i_ctor:
+    if not cc or len(cc[0].args) < 3:
+        raise AnalysisError('AstBuilder.compile: compile_class call not found')
+    ivar = norm_src(cc[0].args[2])
+    base = cc[0].args[2]
+    while isinstance(base, ast.Call) and base.args:
+        base = base.args[0]  # sorted(i) / list(i) wrappers are judged below
+    mvar = base.id if isinstance(base, ast.Name) else ivar
+    i_ctor = [norm_src(n.value) for n in own_nodes(comp) if isinstance(n, ast.Assign)
+              and any(isinstance(t, ast.Name) and t.id == mvar for t in n.targets)]
+    fills = [n for n in own_nodes(comp) if isinstance(n, ast.For) and any(
+        isinstance(s, ast.Assign) and any(
+            isinstance(t, ast.Subscript) and norm_src(t.value) == mvar
+            for t in s.targets) for s in ast.walk(n))]
+    if not fills or not i_ctor:
         raise AnalysisError('AstBuilder.compile: input mapping idiom not found')
-    passed = len(cc[0].args) > 2 and norm_src(cc[0].args[2]) == 'i'
+    passed = ivar == mvar
     sorted_iter = all(isinstance(f.iter, ast.Call) and call_name(f.iter) ==
                       'sorted' for f in fills)
     if 'OrderedDict' in i_ctor[0] and passed and sorted_iter:
